@@ -5,11 +5,14 @@ import (
 	"go/constant"
 	"go/token"
 	"go/types"
+	"os"
 	"sort"
 	"strings"
 
 	"golang.org/x/tools/go/ssa"
 )
+
+var debugTrace = os.Getenv("GOSMT_TRACE") != ""
 
 type State struct {
 	base   *Term // path condition of the callers (absolute)
@@ -72,6 +75,9 @@ type Interp struct {
 	solverFeas  func(*Term) string
 	forkFuncs   map[string]bool
 	forkIn      map[string]bool
+	facts       map[int]bool // atoms decided by unconditional assumptions / path-wise decisions
+	callStack   []string
+	symDepth    int   // >0 while executing one arm of a symbolic fork
 	drops       int   // number of times a path was cut or narrowed (assume, panic, unwinding, global fork)
 	decisions   []int // fork decision prefix (for global forking)
 	decPos      int
@@ -82,7 +88,7 @@ type Interp struct {
 func newInterp(prog *ssa.Program) *Interp {
 	return &Interp{prog: prog, pdom: map[*ssa.Function]map[*ssa.BasicBlock]*ssa.BasicBlock{}, joins: map[*ssa.Function]map[*ssa.BasicBlock]*ssa.BasicBlock{},
 		globals: map[*ssa.Global]*Object{}, globalHeap: map[*Object]Value{}, unwind: 80,
-		funcsSeen: map[string]bool{}, inputByName: map[string]*inputRec{}, contracts: map[string]bool{}, forkFuncs: map[string]bool{}, forkIn: map[string]bool{}}
+		funcsSeen: map[string]bool{}, inputByName: map[string]*inputRec{}, contracts: map[string]bool{}, forkFuncs: map[string]bool{}, forkIn: map[string]bool{}, facts: map[int]bool{}}
 }
 
 func (in *Interp) newObject(st *State, v Value, label string) *Object {
@@ -300,6 +306,67 @@ func (fr *Frame) assignPhis(st *State, from, to *ssa.BasicBlock) {
 	}
 }
 
+func (in *Interp) addFact(t *Term) {
+	if in.symDepth > 0 {
+		return
+	}
+	for _, c := range conjuncts(t) {
+		if c.op == "not" {
+			in.facts[c.args[0].id] = false
+			// not(or(a,b)) => a false, b false
+			if c.args[0].op == "or" {
+				for _, d := range c.args[0].args {
+					in.addFact(Not(d))
+				}
+			}
+		} else {
+			in.facts[c.id] = true
+		}
+	}
+}
+
+func (in *Interp) applyFacts(c *Term) *Term {
+	if len(in.facts) == 0 {
+		return c
+	}
+	return in.applyFactsD(c, 3)
+}
+
+func (in *Interp) applyFactsD(c *Term, depth int) *Term {
+	if v, ok := in.facts[c.id]; ok {
+		return Bool(v)
+	}
+	if depth == 0 {
+		return c
+	}
+	switch c.op {
+	case "not":
+		r := in.applyFactsD(c.args[0], depth-1)
+		if r != c.args[0] {
+			return Not(r)
+		}
+	case "and", "or":
+		if len(c.args) > 16 {
+			return c
+		}
+		changed := false
+		out := make([]*Term, len(c.args))
+		for i, a := range c.args {
+			out[i] = in.applyFactsD(a, depth-1)
+			if out[i] != a {
+				changed = true
+			}
+		}
+		if changed {
+			if c.op == "and" {
+				return And(out...)
+			}
+			return Or(out...)
+		}
+	}
+	return c
+}
+
 // joinOf: the block where the two arms of the If ending block b are expected to re-converge
 // (nearest block reachable from both successors). Only an efficiency hint: correctness of run
 // does not depend on the choice.
@@ -313,6 +380,9 @@ func (in *Interp) joinOf(fn *ssa.Function, b *ssa.BasicBlock) *ssa.BasicBlock {
 		return j
 	}
 	n := len(fn.Blocks)
+	// distances in the CFG without back edges: the target of a back edge is reached but not expanded
+	// (it belongs to the next iteration), except for back edges into b itself (b is then a loop header
+	// whose exit is where unrolled iterations re-converge).
 	bfs := func(s *ssa.BasicBlock) []int {
 		d := make([]int, n)
 		for i := range d {
@@ -324,10 +394,14 @@ func (in *Interp) joinOf(fn *ssa.Function, b *ssa.BasicBlock) *ssa.BasicBlock {
 			x := q[0]
 			q = q[1:]
 			for _, y := range x.Succs {
-				if d[y.Index] < 0 {
-					d[y.Index] = d[x.Index] + 1
-					q = append(q, y)
+				if d[y.Index] >= 0 {
+					continue
 				}
+				d[y.Index] = d[x.Index] + 1
+				if y != b && y.Dominates(x) {
+					continue // back edge: do not expand the header
+				}
+				q = append(q, y)
 			}
 		}
 		return d
@@ -370,6 +444,9 @@ func (fr *Frame) run(st *State, b *ssa.BasicBlock, stops []*ssa.BasicBlock) outc
 			out.addCont(in, b, st)
 			return out
 		}
+		if debugTrace && strings.HasPrefix(fr.fn.Name(), "H_") {
+			fmt.Fprintf(os.Stderr, "[%s] block %d stops=%d pc=%d\n", fr.fn.Name(), b.Index, len(stops), st.pc.id)
+		}
 		alive := fr.execBlockBody(st, b)
 		if !alive {
 			return out
@@ -382,7 +459,7 @@ func (fr *Frame) run(st *State, b *ssa.BasicBlock, stops []*ssa.BasicBlock) outc
 			b = nb
 		case *ssa.If:
 			cv := fr.eval(st, t.Cond)
-			c := asBoolTerm(cv)
+			c := in.applyFacts(asBoolTerm(cv))
 			if c == tTrue || c == tFalse {
 				nb := b.Succs[0]
 				if c == tFalse {
@@ -399,8 +476,10 @@ func (fr *Frame) run(st *State, b *ssa.BasicBlock, stops []*ssa.BasicBlock) outc
 				nb := b.Succs[0]
 				if take {
 					st.pc = And(st.pc, c)
+					in.addFact(c)
 				} else {
 					st.pc = And(st.pc, Not(c))
+					in.addFact(Not(c))
 					nb = b.Succs[1]
 				}
 				if st.pc == tFalse {
@@ -436,6 +515,7 @@ func (fr *Frame) run(st *State, b *ssa.BasicBlock, stops []*ssa.BasicBlock) outc
 			stF := st
 			stF.pc = And(st.pc, Not(c))
 			var oT, oF outcome
+			in.symDepth++
 			if stT.pc != tFalse {
 				fr.assignPhis(stT, b, b.Succs[0])
 				oT = fr.run(stT, b.Succs[0], stops2)
@@ -445,6 +525,7 @@ func (fr *Frame) run(st *State, b *ssa.BasicBlock, stops []*ssa.BasicBlock) outc
 				oF = fr.run(stF, b.Succs[1], stops2)
 			}
 			fr.ifDepth[b]--
+			in.symDepth--
 			if r := in.mergeStates(c, oT.ret, oF.ret); r != nil {
 				out.ret = in.mergeRet(out.ret, r)
 			}
@@ -934,7 +1015,7 @@ func (fr *Frame) indexAddr(st *State, x *ssa.IndexAddr) (Value, bool) {
 			if idx < 0 || int(idx) >= c.len {
 				return nil, false
 			}
-			return Pointer{obj: c.obj}.child(c.off + int(idx)), true
+			return slicePtr(c, c.off+int(idx)), true
 		case Pointer: // pointer to array
 			if c.obj == nil {
 				return nil, false
@@ -952,6 +1033,11 @@ func (fr *Frame) indexAddr(st *State, x *ssa.IndexAddr) (Value, bool) {
 		return nil, false
 	}
 	return r, true
+}
+
+func slicePtr(c SliceVal, i int) Pointer {
+	idx := append(decodePath(c.pre), i)
+	return Pointer{obj: c.obj, idx: idx, path: mkPath(idx)}
 }
 
 func (fr *Frame) sliceOp(st *State, x *ssa.Slice) (Value, bool) {
@@ -991,7 +1077,7 @@ func (fr *Frame) sliceOp(st *State, x *ssa.Slice) (Value, bool) {
 			if c.obj == nil {
 				return SliceVal{}, true
 			}
-			return SliceVal{obj: c.obj, off: c.off + l, len: h - l, cap: m - l}, true
+			return SliceVal{obj: c.obj, pre: c.pre, off: c.off + l, len: h - l, cap: m - l}, true
 		case string:
 			l, h := 0, len(c)
 			if hasLo {
@@ -1034,11 +1120,7 @@ func (fr *Frame) sliceOp(st *State, x *ssa.Slice) (Value, bool) {
 			if l < 0 || h < l || m < h || m > n {
 				return nil, false
 			}
-			if len(c.idx) == 0 {
-				return SliceVal{obj: c.obj, off: l, len: h - l, cap: m - l}, true
-			}
-			// array embedded inside a larger object: materialise an alias is not possible; copy semantics would be wrong
-			unsupported("slicing an array embedded in a struct at %s", in.posOf(x))
+			return SliceVal{obj: c.obj, pre: c.path, off: l, len: h - l, cap: m - l}, true
 		}
 		unsupported("Slice on %T", b)
 		return nil, false
@@ -1201,7 +1283,7 @@ func (fr *Frame) convert(st *State, v Value, from, to types.Type, instr ssa.Inst
 				cells := make([]Value, c.len)
 				allConc := true
 				if c.len > 0 {
-					arr := st.heap[c.obj].(*Agg)
+					arr := sliceArr(st.heap, c)
 					for i := 0; i < c.len; i++ {
 						cells[i] = arr.elems[c.off+i]
 						if _, ok := cells[i].(int64); !ok {
@@ -1641,6 +1723,8 @@ func (fr *Frame) callAlts(st *State, callee Value, instr ssa.Instruction, f func
 		return f(st, callee)
 	}
 	var merged *State
+	in.symDepth++
+	defer func() { in.symDepth-- }()
 	for i := len(ch.alts) - 1; i >= 0; i-- {
 		a := ch.alts[i]
 		s := st.fork()
@@ -1690,6 +1774,17 @@ func (in *Interp) callFunction(st *State, fn *ssa.Function, args []Value, bindin
 	in.funcsSeen[name] = true
 	in.stats.calls++
 	in.callDepth++
+	in.callStack = append(in.callStack, fn.Name())
+	defer func() {
+		if r := recover(); r != nil {
+			if ee, ok := r.(engineError); ok && !strings.Contains(ee.msg, " [in ") {
+				ee.msg += " [in " + strings.Join(in.callStack, " > ") + "]"
+				panic(ee)
+			}
+			panic(r)
+		}
+		in.callStack = in.callStack[:len(in.callStack)-1]
+	}()
 	if in.callDepth > maxCallDepth {
 		unsupported("call depth exceeded in %s", name)
 	}
@@ -1828,7 +1923,7 @@ func (fr *Frame) callBuiltin(st *State, name string, args []Value, cc *ssa.CallC
 		switch s := args[1].(type) {
 		case SliceVal:
 			if s.len > 0 {
-				arr := st.heap[s.obj].(*Agg)
+				arr := sliceArr(st.heap, s)
 				src = arr.elems[s.off : s.off+s.len]
 			}
 		case string:
@@ -1846,11 +1941,11 @@ func (fr *Frame) callBuiltin(st *State, name string, args []Value, cc *ssa.CallC
 			if dst.obj.pre && in.frozen && !in.monitorOff {
 				in.oblige("frame", "copy into pre-existing object "+dst.obj.label, st.abs(), in.posOf(instr))
 			}
-			arr := st.heap[dst.obj].(*Agg)
+			arr := sliceArr(st.heap, dst)
 			out := make([]Value, len(arr.elems))
 			copy(out, arr.elems)
 			copy(out[dst.off:dst.off+n], src[:n])
-			st.heap[dst.obj] = &Agg{elems: out}
+			sliceSetArr(st.heap, dst, &Agg{elems: out})
 		}
 		return int64(n), true
 	case "println", "print":
@@ -1867,7 +1962,7 @@ func (in *Interp) doAppend(st *State, s SliceVal, add Value, instr ssa.Instructi
 	switch a := add.(type) {
 	case SliceVal:
 		if a.len > 0 {
-			arr := st.heap[a.obj].(*Agg)
+			arr := sliceArr(st.heap, a)
 			src = append(src, arr.elems[a.off:a.off+a.len]...)
 		}
 	case string:
@@ -1886,12 +1981,12 @@ func (in *Interp) doAppend(st *State, s SliceVal, add Value, instr ssa.Instructi
 			// writes beyond len into spare capacity of a pre-existing array: a store to shared memory
 			in.oblige("frame", "append in place into pre-existing array "+s.obj.label, st.abs(), in.posOf(instr))
 		}
-		arr := st.heap[s.obj].(*Agg)
+		arr := sliceArr(st.heap, s)
 		out := make([]Value, len(arr.elems))
 		copy(out, arr.elems)
 		copy(out[s.off+s.len:], src)
-		st.heap[s.obj] = &Agg{elems: out}
-		return SliceVal{obj: s.obj, off: s.off, len: need, cap: s.cap}
+		sliceSetArr(st.heap, s, &Agg{elems: out})
+		return SliceVal{obj: s.obj, pre: s.pre, off: s.off, len: need, cap: s.cap}
 	}
 	ncap := 2 * s.cap
 	if ncap < need {
@@ -1899,7 +1994,7 @@ func (in *Interp) doAppend(st *State, s SliceVal, add Value, instr ssa.Instructi
 	}
 	el := make([]Value, ncap)
 	if s.len > 0 {
-		arr := st.heap[s.obj].(*Agg)
+		arr := sliceArr(st.heap, s)
 		copy(el, arr.elems[s.off:s.off+s.len])
 	}
 	copy(el[s.len:], src)
